@@ -17,8 +17,14 @@ E3  ... and the recorded trace (action, thread, futex outcome, woken set, return
 E4  random and PCT controlled schedules of random programs on DistributedRWLockImpl<1>, <2>, <4>
     (readers on arbitrary slots through arbitrary indices, blocking and try writers, spurious
     futex returns), validated the same way.
+E5  free-running rounds (harness/drv/rwlock_stress.h): real threads, real futex, no controller, on
+    DistributedRWLockImpl<1|2|4> (readers on arbitrary indices) and on the public DistributedRWLock<2> and
+    DistributedRWLock<16> (slot = threadId()); two plain counters as protected data; one observation
+    record per batch of rounds, validated by TLC against spec/rwlock/RWLockObs.tla (exclusion, no
+    lost update, a failed try_lock leaves no trace, progress - whatever the interleaving INSIDE the
+    steps of DRWLock.tla).
 """
-from C22 import calibrate, clean_tlc_droppings, cover_replay, random_runs, validate_all
+from C22 import calibrate, clean_tlc_droppings, cover_replay, free_running, random_runs, validate_all
 
 SPEC = 'spec/drwlock'
 WHAT = 'DistributedRWLock mutual exclusion and progress'
@@ -27,7 +33,8 @@ WHAT = 'DistributedRWLock mutual exclusion and progress'
 def run(ctx):
     thorough = ctx.tier == 'thorough'
     clean_tlc_droppings(SPEC)
-    exe = ctx.build('drv_drwlock', ['harness/drv/drv_drwlock.cpp', 'harness/ctl/ctl.cpp'])
+    exe = ctx.build('drv_drwlock', ['harness/drv/drv_drwlock.cpp', 'harness/ctl/ctl.cpp'],
+                    dispenso=['thread_id.cpp'])   # threadId(): the slot choice of the public class (E5)
     cept = calibrate(ctx, exe)
     ctx.cov['completion_event_wait_has_own_point'] = cept
     env = {'CEPT': str(cept)}
@@ -70,13 +77,16 @@ def run(ctx):
     validate_all(ctx, SPEC, 'DRWLockTrace', [('cover replay', ctr, cex), ('random schedules', rtr, rex)], WHAT,
                  together=not thorough)
     clean_tlc_droppings(SPEC)
+    # E5 ------------------------------------------------------------------------------------------
+    free_running(ctx, exe, WHAT, 'DistributedRWLockImpl<1|2|4>, DistributedRWLock<2>, DistributedRWLock<16>')
     ctx.assumptions += [
         'TLA+ interleaving semantics are sequentially consistent (weak-memory effects are C10)',
         'programs stay inside the contract of std::shared_mutex: no recursive locking, unlock only by the holder, '
         'unlock_shared with the index used by lock_shared',
         'DistributedRWLock<N> itself only forwards to DistributedRWLockImpl<N> with index = threadId(); the driver '
-        'calls the Impl with explicit indices (any thread-to-slot mapping); N = 16 is not instantiated '
-        '(the slot loops are uniform in N; N in {1,2,4} traces are validated, N in {1,2,4} model-checked)',
+        'calls the Impl with explicit indices (any thread-to-slot mapping); N = 16 is instantiated in the '
+        'free-running rounds only (the slot loops are uniform in N; N in {1,2,4} traces are validated, N in {1,2,4} '
+        'model-checked)',
         'the futex is the harness\' model of FUTEX_WAIT/FUTEX_WAKE (wakes any waiters, spurious returns possible); '
         'progress assumes weak fairness of threads only',
         'TLC, the JSON/IOUtils community modules and g++ are trusted',
